@@ -16,6 +16,7 @@ import contracts.control as CT
 import contracts.plans as PL
 import contracts.c10 as C10
 import contracts.c17 as C17
+import contracts.wrappers as WR
 
 # an lvalue-ish operand: identifiers, member paths, one or two levels of parentheses (e.g. (*p), __CPROVER_old(x.y))
 _OP = r'(?:[A-Za-z0-9_.*&{}:]|->|\[[^\]]*\]|\((?:[^()]|\((?:[^()]|\([^()]*\))*\))*\))+'
@@ -103,7 +104,7 @@ def void_unit(u):
 
 UNITS = []
 SKIPPED = []
-for mod in (M, CT, PL, C10, C17):
+for mod in (M, CT, PL, C10, C17, WR):
     for u in mod.UNITS:
         if re.search(r'changeWith|payload|Payload', u['id']):
             SKIPPED.append(u['id']); continue
